@@ -17,14 +17,16 @@ import (
 )
 
 type addrStep struct {
-	addr      string
-	pre       string // absent | stale | file | na : state of the filesystem path before the bind
-	path      string // filesystem path concerned ("" if none)
-	twice     bool   // Bind the same address twice in a row before serving (Bind path only)
-	viaListen bool   // serve with Listen(addr) instead of Bind(addr) + DoListen
-	must      bool   // the generator knows that the endpoint, read per the property, is listenable
-	cmp       bool   // the listener's Addr().String() is expected to equal the endpoint text literally
-	kind      string // generator class, for the histogram
+	addr  string
+	pre   string // absent | stale | file | na : state of the filesystem path before the bind
+	path  string // filesystem path concerned ("" if none)
+	twice bool   // Bind the same address twice in a row before serving (Bind path only)
+	// Bind, Shutdown without having served, Bind again with the same string (Bind path only)
+	shutBetween bool
+	viaListen   bool   // serve with Listen(addr) instead of Bind(addr) + DoListen
+	must        bool   // the generator knows that the endpoint, read per the property, is listenable
+	cmp         bool   // the listener's Addr().String() is expected to equal the endpoint text literally
+	kind        string // generator class, for the histogram
 }
 
 type addrObs struct {
@@ -238,6 +240,12 @@ func runAddrStep(svc *varlink.Service, vendor string, s addrStep) (o addrObs) {
 			// binding the same address again without serving in between must work just as well
 			err = svc.Bind(ctx, s.addr)
 		}
+		if err == nil && s.shutBetween {
+			// bound, shut down before it ever served, bound again with the same string: the endpoint must be
+			// there again (the listener of the first bind is closed, a filesystem socket removed with it)
+			svc.Shutdown()
+			err = svc.Bind(ctx, s.addr)
+		}
 		if err != nil {
 			o.class = classifyBindErr(err)
 		} else {
@@ -353,6 +361,7 @@ func init() {
 				//  abstract names the first listener still owns the endpoint and the second bind may
 				//  legitimately fail with "address in use")
 				st.twice = !st.viaListen && st.path != "" && g.Chance(1, 3)
+				st.shutBetween = !st.viaListen && !st.twice && st.must && g.Chance(1, 3)
 				steps = append(steps, st)
 			}
 			// whatever happened before, the service must still be able to bind
